@@ -144,3 +144,44 @@ pub fn run_check(tier: Tier) -> Report {
     rep.sample(json!({"config":"Sort IoU(0.3) shards=2","history":[[0,0],[0,1],[0,3]],"window":"call 2","explored":"all command-level schedules"}));
     rep
 }
+
+/// `./check C05 quick --replay <file>`: re-execute one recorded schedule (schedule part only)
+pub fn replay(file: &serde_json::Value) -> i32 {
+    let r = &file["replay"];
+    let sc = &r["scenario"];
+    if !sc.is_object() {
+        println!("this replay file belongs to the shard-count differential (default schedule): its history is re-run by the full check");
+        return run_check(Tier::Quick).finish();
+    }
+    let Some(cfg) = TrkCfg::from_json(&sc["config"]) else { machinery_error("replay file: cannot parse the tracker configuration") };
+    let h: Vec<Call> = sc["history"].as_array().map(|a| a.iter().map(|c| (c[0].as_u64().unwrap_or(0), c[1].as_u64().unwrap_or(0) as usize)).collect()).unwrap_or_default();
+    let fine = sc["granularity"].is_string();
+    let window = sc["window_call"].as_u64().unwrap_or(2) as u32;
+    let choices: Vec<usize> = r["schedule"]["choices"].as_array().map(|a| a.iter().map(|x| x.as_u64().unwrap_or(0) as usize).collect()).unwrap_or_default();
+    let ls = Arc::new(lists());
+    let mut ref_cfg = cfg.clone();
+    ref_cfg.shards = 1;
+    let (ls2, h2) = (ls.clone(), h.clone());
+    let reference = sched::in_shuttle(move || run(&ref_cfg, &ls2, &h2)).unwrap_or_else(|e| machinery_error(&format!("reference run failed: {e}")));
+    let ecfg = sched::ExploreCfg { mode: if fine { sched::Mode::Fine } else { sched::Mode::Macro }, window: (window, window), ..Default::default() };
+    let (ls2, h2, c2) = (ls.clone(), h.clone(), cfg.clone());
+    let f = Arc::new(move || run(&c2, &ls2, &h2));
+    let x = sched::run_one(&ecfg, &choices, &f);
+    println!("scenario {sc}\nschedule {}", x.schedule_json());
+    match &x.outcome {
+        sched::Outcome::Done(o) => {
+            if o.recs == reference.recs && o.dumps == reference.dumps {
+                println!("the recorded schedule no longer violates the property");
+                0
+            } else {
+                println!("VIOLATION property=C05 replay=(replayed) records or store state differ from the 1-shard reference: {:?} vs {:?}", o.recs, reference.recs);
+                1
+            }
+        }
+        sched::Outcome::Machinery(m) => machinery_error(&format!("the recorded schedule does not fit the current code: {m}")),
+        o => {
+            println!("VIOLATION property=C05 replay=(replayed) {}", format!("{o:?}").chars().take(300).collect::<String>());
+            1
+        }
+    }
+}
